@@ -17,7 +17,9 @@ extern Engine engine_c05 __attribute__((weak)), engine_c07 __attribute__((weak))
     engine_c04 __attribute__((weak)), engine_c15 __attribute__((weak));
 
 // choose a PDU type + value for a run; returns nullptr structure if no value could be made (counted)
-struct ValueChoice { asn_TYPE_descriptor_t *td = nullptr; void *st = nullptr; std::string origin; };
+struct ValueChoice { asn_TYPE_descriptor_t *td = nullptr; void *st = nullptr; std::string origin; /* = reconstructible spec */ };
+// spec: fill:<seed>:<budget> | seedfile:<k> | zero
+void *value_from_spec(asn_TYPE_descriptor_t *td, const std::string &spec);
 ValueChoice choose_value(uint64_t run_seed, size_t max_budget = 400);
 // weights: recursive and open types are visited more often than their share
 asn_TYPE_descriptor_t *choose_type(Rng &r);
